@@ -1223,6 +1223,13 @@ caption_command(vbi_decoder *vbi, struct caption *cc,
 
 		case 12:	/* Erase Displayed Memory	001 c10f  010 1100 */
 // s1, s4: EDM always before EOC
+			/* EIA 608-B Section 7.7, Annex B.7: within a Text
+			   Mode transmission EDM and ENM are "acted upon as
+			   appropriate for caption processing without
+			   terminating the Text Mode data stream", they
+			   have no effect on Text channels. */
+			ch = &cc->channel[chan & 3];
+
 			if (ch->mode != MODE_POP_ON)
 				erase_memory(cc, ch, ch->hidden);
 
@@ -1233,6 +1240,9 @@ caption_command(vbi_decoder *vbi, struct caption *cc,
 
 		case 14:	/* Erase Non-Displayed Memory	001 c10f  010 1110 */
 // not verified
+			/* See Erase Displayed Memory. */
+			ch = &cc->channel[chan & 3];
+
 			if (ch->mode == MODE_POP_ON)
 				erase_memory(cc, ch, ch->hidden);
 
